@@ -199,7 +199,7 @@ def run(tier, seed):
     for c in typed + shaped:
         c["id"] = len(concrete)
         concrete.append(c)
-    results, deaths = walk.run(PID, "walk", concrete, shards=14, secs=10, extra=("--detail",))
+    results, deaths = walk.run(PID, "walk", concrete, shards=14, secs=20, extra=("--detail",))
     if len(results) + len(deaths) != len(concrete):
         raise vlib.ToolError("replay lost cases: %d results + %d deaths != %d" % (len(results), len(deaths), len(concrete)))
     nontrivial = judge(v, concrete, results, deaths, expect)
@@ -215,7 +215,7 @@ def run(tier, seed):
                    "assignment crossed with every single numeric deviation) and checks on the traversal model that the recursion depth stays bounded, every traversal ends in ok/err "
                    "and terminates; each assignment is written as a complete file and every read entry point (open, pages, boxes, resources, fonts with widths / ToUnicode / embedded data, "
                    "images, forms, content operators, name and number tree walks, outline steps, every object by number incl. stream decoding, recovery scan) is called under "
-                   "{strict, tolerant} x {cached, uncached} in child processes with a 10 s watchdog per configuration and a 3 GiB address-space cap; a panic, process death, "
+                   "{strict, tolerant} x {cached, uncached} in child processes with a 20 s watchdog per configuration and a 3 GiB address-space cap; a panic, process death, "
                    "case slower than %d ms or a tree walk that succeeds on a graph the model refuses is a failure; non-trivial = the library answered with more error values than for the fragment's well-formed assignment" % SLOW_MS,
            "exhaustive": True, "fragments": per_frag, "process_deaths": len(deaths), "tlc": {"cfg": cfg, "wall_s": r["wall_s"]},
            "action_coverage": r["coverage"], "deviation_witnesses_refuted": wit, "known_findings_hit": sorted(v.known_hit),
@@ -234,7 +234,7 @@ def replay(path, seed):
         print(json.dumps(rec)[:2000])
         return 1
     concrete = [{"id": 0, "cls": rec.get("case_sig", ""), "hex": rec["hex"], "frag": rec.get("case_sig", "?").split("[")[0]}]
-    results, deaths = walk.run(PID, "replay_walk", concrete, shards=1, secs=10, extra=("--detail",))
+    results, deaths = walk.run(PID, "replay_walk", concrete, shards=1, secs=20, extra=("--detail",))
     v = vlib.Verdict(PID)
     judge(v, concrete, results, deaths, {})
     for r in results:
